@@ -411,7 +411,16 @@ def check_case(case) -> Obs:
         d0, d1 = rng["dst_start"], rng["dst_end"]
         excl = case["exclude"]
         kw = {k: args[k] for k in ("volume", "diti_reuse", "multi_disp", "liquid_class", "direction", "src_rack_id", "src_rack_type", "dst_rack_id", "dst_rack_type")}
-        call = lambda: wl.reagent_distribution(args["src_rack_label"], s0, s1, args["dst_rack_label"], d0, d1, exclude_wells=excl, **kw)  # noqa: E731
+        # the exclusion list is an Iterable[int]: list, tuple, set, a one-shot iterator, a numpy array
+        form = (len(excl or []) + d0) % 5
+        if excl:
+            import numpy as _np
+
+            excl_arg = [list(excl), tuple(excl), set(excl), iter(list(excl)), _np.array(excl)][form]
+            obs.cls("exclude-as:" + ["list", "tuple", "set", "iterator", "ndarray"][form])
+        else:
+            excl_arg = excl
+        call = lambda: wl.reagent_distribution(args["src_rack_label"], s0, s1, args["dst_rack_label"], d0, d1, exclude_wells=excl_arg, **kw)  # noqa: E731
 
         def checker(new):
             _check_R(obs, new, M, args["src_rack_label"], args["dst_rack_label"], s0, s1, d0, d1, excl or [], args, "reagent_distribution")
